@@ -1,6 +1,7 @@
 (* model side of the spf engine; mode from argv[1]:
      model : case line -> result line in the format of harness/spf_h.c
-     spec  : case line | C result line -> "ok" | "bad" | "pre" *)
+     spec  : case line | C result line -> "ok" | "okrfc" | "bad" | "pre"
+     rfc   : case line -> result of the RFC 7208 reference (debugging aid) *)
 open M
 
 let has_nul l = List.exists (fun x -> x = N0) l
@@ -76,11 +77,23 @@ let spec fs obs = match parse_case fs with
            | None -> "bad"
            | Some rc ->
                let zexp = List.exists (fun e -> has_exp_mod e) zone in
-               if spec_ok_C11 zexp { o_log = log; o_rc = z_of_int rc; o_exp = exp; o_rcv = rcv } then "ok" else "bad")
+               if not (spec_ok_C11 zexp { o_log = log; o_rc = z_of_int rc; o_exp = exp; o_rcv = rcv }) then "bad"
+               else
+                 (* okrfc: the reference of Spec/SpfRfc.v gave a result for this case and the implementation agrees *)
+                 let ref = rfc_check_host (zone_dns (decode_zone zone)) x dom in
+                 if not (rfc_agrees ref (z_of_int rc)) then "bad"
+                 else (match ref with RSkip -> "ok" | _ -> "okrfc"))
+
+let rfc fs = match parse_case fs with
+  | None -> "BADCASE"
+  | Some (dom, x, zone) ->
+      (match rfc_check_host (zone_dns (decode_zone zone)) x dom with
+       | RSkip -> "RSkip" | RLimit -> "RLimit" | RCode z -> Printf.sprintf "R%d" (int_of_z z))
 
 let () =
   match Sys.argv.(1) with
   | "model" -> main_loop model
+  | "rfc" -> main_loop rfc
   | "spec" -> main_loop (fun fs ->
       let rec split acc = function "|" :: rest -> (List.rev acc, rest) | x :: r -> split (x :: acc) r | [] -> (List.rev acc, []) in
       let (c, o) = split [] fs in spec c o)
